@@ -52,6 +52,9 @@ pub struct SurfaceCfg {
     /// allow long content (text, CDATA, attribute values, comments of up to ~1.5 KB with multi-byte
     /// characters at arbitrary byte offsets)
     pub long_content: bool,
+    /// allow references to general entities declared in an internal DTD subset (`&e;`, `&nbsp;`, `&copy;`) as text:
+    /// well-formed, non-empty character data that a reader cannot unescape without the DTD
+    pub general_entities: bool,
 }
 
 impl SurfaceCfg {
@@ -72,6 +75,7 @@ impl SurfaceCfg {
             blank_cdata: true,
             pis: true,
             long_content: true,
+            general_entities: true,
         }
     }
     pub fn plain() -> Self {
@@ -91,6 +95,7 @@ impl SurfaceCfg {
             blank_cdata: true,
             pis: true,
             long_content: false,
+            general_entities: false,
         }
     }
 }
@@ -121,6 +126,9 @@ const TEXTS_ESC: &[(&str, &str)] = &[
     ("&lt;tag&gt;", "<tag>"),
     ("x&#32;y", "x y"),
 ];
+/// references to general entities declared by ENT_SUBSET (the logical value is what a DTD-aware parser would see)
+const TEXTS_ENT: &[(&str, &str)] = &[("&e;", "v"), ("&nbsp;", "\u{a0}"), ("&copy;", "(c)"), ("a&e;b", "avb"), ("&copy; 2024 &e;", "(c) 2024 v"), ("&d;", "d")];
+const ENT_SUBSET: &str = "<!ENTITY e \"v\"><!ENTITY nbsp \"&#160;\"><!ENTITY copy \"(c)\"><!ENTITY d 'd'>";
 const CDATAS: &[&str] = &["x", "<tag>&amp;</tag>", "]]", "a > b", "hello", "&lt;", "名", "]", "<!--no-->", "<?pi?>"];
 const CDATAS_PADDED: &[&str] = &[" x ", "\n x", " ", "\n"];
 
@@ -159,11 +167,14 @@ pub struct Ser<'t, 'c> {
     pub n_cdata: u32,
     pub n_selfclosed: u32,
     pub n_expanded_empty: u32,
+    pub n_entity_refs: u32,
+    /// the document declares the general entities of TEXTS_ENT
+    ent_ok: bool,
 }
 
 impl<'t, 'c> Ser<'t, 'c> {
     pub fn new(tape: &'t [u8], cfg: &'c SurfaceCfg) -> Self {
-        Ser { out: Vec::new(), t: Tape::new(tape), cfg, n_comments: 0, n_cdata: 0, n_selfclosed: 0, n_expanded_empty: 0 }
+        Ser { out: Vec::new(), t: Tape::new(tape), cfg, n_comments: 0, n_cdata: 0, n_selfclosed: 0, n_expanded_empty: 0, n_entity_refs: 0, ent_ok: false }
     }
 
     fn push(&mut self, s: &str) {
@@ -295,7 +306,14 @@ impl<'t, 'c> Ser<'t, 'c> {
                 raw.push(' ');
                 logical.push(' ');
             }
-            let set = if self.cfg.escapes && self.t.chance(70) { TEXTS_ESC } else { TEXTS };
+            let set = if self.ent_ok && self.t.chance(110) {
+                self.n_entity_refs += 1;
+                TEXTS_ENT
+            } else if self.cfg.escapes && self.t.chance(70) {
+                TEXTS_ESC
+            } else {
+                TEXTS
+            };
             let (r, l) = *self.t.pick(set);
             raw.push_str(r);
             logical.push_str(l);
@@ -408,7 +426,16 @@ impl<'t, 'c> Ser<'t, 'c> {
             self.push(b);
         }
         self.misc();
-        if self.cfg.doctype && self.t.chance(30) {
+        if self.cfg.general_entities && self.t.chance(64) {
+            // a DOCTYPE whose internal subset declares the general entities used as text further down
+            self.ent_ok = true;
+            let d = format!("<!DOCTYPE {} [{}]>", root.name, ENT_SUBSET);
+            self.push(&d);
+            if self.cfg.outer_ws && self.t.chance(128) {
+                self.push("\n");
+            }
+            self.misc();
+        } else if self.cfg.doctype && self.t.chance(30) {
             let plain = format!("<!DOCTYPE {}>", root.name);
             let sys = format!("<!DOCTYPE {} SYSTEM \"x.dtd\">", root.name);
             let subset = format!("<!DOCTYPE {} [<!ELEMENT {} ANY><!ENTITY e \"v\">]>", root.name, root.name);
@@ -448,12 +475,13 @@ pub struct SerStats {
     pub cdata: u32,
     pub selfclosed: u32,
     pub expanded_empty: u32,
+    pub entity_refs: u32,
 }
 
 pub fn serialize_stats(root: &Node, surface: &[u8], cfg: &SurfaceCfg) -> (Vec<u8>, VNode, SerStats) {
     let mut s = Ser::new(surface, cfg);
     let v = s.document(root);
-    let st = SerStats { comments: s.n_comments, cdata: s.n_cdata, selfclosed: s.n_selfclosed, expanded_empty: s.n_expanded_empty };
+    let st = SerStats { comments: s.n_comments, cdata: s.n_cdata, selfclosed: s.n_selfclosed, expanded_empty: s.n_expanded_empty, entity_refs: s.n_entity_refs };
     (s.out, v, st)
 }
 
@@ -467,7 +495,7 @@ pub fn serialize_docs(docs: &[Node], surface: &[u8], cfg: &SurfaceCfg) -> (Vec<V
         bytes.push(std::mem::take(&mut s.out));
         vs.push(v);
     }
-    let st = SerStats { comments: s.n_comments, cdata: s.n_cdata, selfclosed: s.n_selfclosed, expanded_empty: s.n_expanded_empty };
+    let st = SerStats { comments: s.n_comments, cdata: s.n_cdata, selfclosed: s.n_selfclosed, expanded_empty: s.n_expanded_empty, entity_refs: s.n_entity_refs };
     (bytes, vs, st)
 }
 
